@@ -111,7 +111,7 @@ def draw_config(rng, wl, tier):
         "settle": rng.random() < 0.7,
         # an earlier analysis in the same process that is refused or aborts inside its Progress context;
         # whatever it leaves in the global progress state meets the analysis under test (no settling between)
-        "prelude": rng.choice(["fit_one_point", "zhit_bad_order", "kk_two_points", "drt_unknown", "kk_suggest", "kk_suggest", "zhit_auto"]) if rng.random() < 0.25 else None,
+        "prelude": rng.choice(["fit_one_point", "zhit_bad_order", "kk_two_points", "drt_unknown", "kk_suggest", "kk_suggest", "zhit_auto", "sibling_size", "sibling_size", "sibling_size"]) if rng.random() < 0.3 else None,
     }
     if cfg["prelude"]:
         cfg["settle"] = False
@@ -190,7 +190,17 @@ PRELUDES = {
 def evaluate(wl, cfg, dec, ctx):
     pre_bad = []
     if cfg.get("prelude"):
-        pre = run_entry(PRELUDES[cfg["prelude"]], {"num_procs": 1, "callbacks": 1, "settle": True})
+        if cfg["prelude"] == "sibling_size":
+            # the same analysis with the same options on a spectrum over the same frequency range with one more point:
+            # whatever the library remembers from it (under a key that does not tell the two apart) meets the analysis under test
+            pwl = dict(wl)
+            pwl["data"] = dict(wl["data"])
+            pwl["data"]["n"] = wl["data"]["n"] + 1
+            pwl["data"]["mask"] = []
+            pwl["data"].pop("history_partial", None)
+        else:
+            pwl = PRELUDES[cfg["prelude"]]
+        pre = run_entry(pwl, {"num_procs": 1, "callbacks": 1, "settle": True})
         pre_bad = list(pre.bad_progress or [])
     if cfg.get("data_history"):
         wl = dict(wl)
